@@ -936,6 +936,72 @@ theorem det_frame {st : St} (h : Inv st) (op : Op) (t : Nat) (ht : op.tenant = s
   · exact absurd (h.fresh t' id hown) (by rw [h1]; exact Nat.lt_irrefl _)
   · exact absurd (h.disjoint t t' id (fun e => hne e.symm) hid h1) hown
 
+/-! ### updateFolder: the duplicate-name test (patch c20-13) -/
+
+theorem nameTaken_put_self (fs : FS) (id : Nat) (x : Item) (p : Nat) (n : Key) :
+    nameTaken { fs with items := fs.items.put id x } p n none (some id) = nameTaken fs p n none (some id) := by
+  unfold nameTaken
+  congr 1
+  funext c
+  by_cases e : c = id
+  · subst e
+    simp only [get_put, if_true]
+    cases fs.items.get c <;> simp
+  · simp only [get_put, e, if_false]
+
+def renOf (name : Option Key) (it1 : Item) : Bool := match name with | some n => decide (n ≠ it1.name) | none => false
+def newNameOf (name : Option Key) (it1 : Item) : Key := match name with | some n => n | none => it1.name
+def it2Of (name : Option Key) (it1 : Item) : Item :=
+  if renOf name it1 = true then { name := name.getD [], ty := it1.ty, parent := it1.parent } else it1
+def takenOf (id : Nat) (name : Option Key) (fs1 : FS) (target : Option Nat) (it1 : Item) : Bool :=
+  match target with
+  | some p => nameTaken fs1 p (newNameOf name it1) none (some id)
+  | none => false
+def tailOf (st : St) (t id : Nat) (name : Option Key) (fs1 : FS) (target : Option Nat) (it1 : Item) (chg : Bool) : St × Out :=
+  if ((renOf name it1 || chg) && takenOf id name fs1 target it1) = true then (st, Out.res Res.exists_)
+  else (setFS st t { items := fs1.items.put id (it2Of name it1), order := fs1.order }, Out.res Res.ok)
+
+theorem it2_name (name : Option Key) (it1 : Item) : (it2Of name it1).name = newNameOf name it1 := by
+  unfold it2Of renOf newNameOf
+  cases name with
+  | none => simp
+  | some n => by_cases e : n = it1.name <;> simp [e]
+
+theorem it2_parent (name : Option Key) (it1 : Item) : (it2Of name it1).parent = it1.parent := by
+  unfold it2Of; split <;> rfl
+
+/-- the rename part of updateFolder, for whatever structure `fs1` / item `it1` the move part produced -/
+theorem rename_tail (st : St) (t id : Nat) (name : Option Key) (fs1 : FS) (target : Option Nat) (it1 : Item) (chg : Bool)
+    (htg : target = it1.parent)
+    (hc : (renOf name it1 || chg) = true) (hok : (tailOf st t id name fs1 target it1 chg).2 = .res .ok) :
+    ∃ it', (((tailOf st t id name fs1 target it1 chg).1).fs t).items.get id = some it' ∧
+      ∀ p, it'.parent = some p →
+        nameTaken (((tailOf st t id name fs1 target it1 chg).1).fs t) p it'.name none (some id) = false := by
+  subst htg
+  unfold tailOf at hok ⊢
+  rw [hc] at hok ⊢
+  simp only [Bool.true_and] at hok ⊢
+  by_cases htk : takenOf id name fs1 it1.parent it1 = true
+  · simp [htk] at hok
+  simp only [htk, Bool.false_eq_true, if_false, setFS, upd, if_true] at hok ⊢
+  refine ⟨it2Of name it1, by simp [get_put], ?_⟩
+  intro p hp
+  rw [it2_parent] at hp
+  rw [it2_name, nameTaken_put_self]
+  unfold takenOf at htk
+  rw [hp] at htk
+  simpa using htk
+
+/-- the structure after the move part of updateFolder (folder `id` with item `it` goes below `np`) -/
+def movedFS (fs : FS) (id : Nat) (it : Item) (np : Nat) : FS :=
+  let order1 := match it.parent with
+    | some c => (match fs.order.get c with
+        | some l => fs.order.put c (l.filter (fun x => x ≠ id))
+        | none => fs.order)
+    | none => fs.order
+  { fs with order := order1.put np (((order1.get np).getD []) ++ [id]) }
+
+
 end Dash
 
 end SigModel.Lemmas.C20K
